@@ -23,6 +23,14 @@ CLAIMS = {
             "Coq theorems over model E (FsProto): --check leaves every file untouched for EVERY fault plan and crash point; its exit status is 0 exactly when formatting reproduces the file (1 when it differs, the formatter's status when formatting fails); several files: status 0 iff none failed; --if-changed with -o/stdout writes exactly when the formatted bytes differ, then exactly those bytes, and touches nothing else (in-place variants are covered by C13's theorem). Tie: interposer trace/exit/files vs the extracted model, and direct oracles on real runs: directory snapshot (size, mtime, inode) around --check, PASS/FAIL lines and exit status against an independent normal run, bytes written by --if-changed against a normal run, for formatted/unformatted/empty inputs and one-byte perturbations (same-size middle/last byte, size +-1) in ASCII, UTF-8+BOM, UTF-16.",
             "Trusted: Coq kernel, extraction, driver glue, interposer; the int index of bout_content_matches is modelled as list equality (sizes < 2^31); stdin+--if-changed is a recorded finding.",
             "DESIGN.md section 6 C12"),
+    "C15": ("proof",
+            "Coq theorems over a model of the configuration reader and writer (split_args as a state machine, process_option_line, Option<T>::read for every kind incl. strtol, references and validation, save_option_file) parameterised by the registry that a translator regenerates from options.h/option.h/option.cpp on every run: for EVERY well-formed option table (all generated options, all enumerated values, all in-range numbers, all string values whatsoever) loading the lines the writer prints reproduces the table from any previous state with no diagnostic; idempotence; quoted-string and number round trips for all strings / all longs. The generated tables' side conditions (857 names, aliases, compat names) are re-proved by computation each run. Tie: translator + correspondence (binary --update-config vs extracted model: saved lines, count, diagnostics) exhaustively over options x candidate values, aliases, references, directives; reload/idempotence/with-doc/behaviour oracles on the binary.",
+            "Trusted: Coq kernel incl. vm_compute for the generated-table checks, extraction, driver glue, translator gen/gen_registry.py. Keyword/file_ext lines are covered by correspondence and oracles, not by the load/save theorem. NUL bytes excluded; 'include' is an oracle.",
+            "DESIGN.md section 6 C15"),
+    "C16": ("proof",
+            "Coq theorems over the same configuration model and generated registry: a value that is not accepted (wrong type, out of range, dangling or ill-typed reference) leaves the whole state unchanged and yields a diagnostic; unknown options likewise; an accepted value changes exactly the named option; accepted numbers lie within the generated bounds of every bounded option; malformed quoting changes nothing; the nl_max guard is characterised over the generated list of options it compares. Tie: translator + correspondence on a malformed stream (values just outside both bounds of every bounded option, wrong types, bad references, quoting errors, long lines, non-ASCII, garbage text) with diagnostics compared by kind/line/option; direct oracles on the binary: no effect on --update-config output or formatted bytes, a diagnostic naming file/line/option, no crash or hang, include cycles, nl_max refusals.",
+            "Trusted: as C15. Diagnostics are compared by kind, line and option, not by message text. The strchr(\"-\", 0) read past an empty value is modelled as 'bad value' (no observable difference).",
+            "DESIGN.md section 6 C16"),
 }
 
 
